@@ -34,10 +34,17 @@ func (a *AlternativeResult) Identifier() string {
 
 const roundPrecision = 1e8
 
+// values of this magnitude have no digits below roundPrecision left: every float64 >= 2^53 is an integer
+const maxRoundable = (1 << 53) / roundPrecision
+
 func (a *AlternativeResult) rounded() *AlternativeResult {
+	value := a.Value()
+	if math.Abs(value) < maxRoundable {
+		value = math.Round(value*roundPrecision) / roundPrecision
+	}
 	return &AlternativeResult{
 		Alternative: a.Alternative,
-		Evaluation:  EvaluationSingleValue{math.Round(a.Value()*roundPrecision) / roundPrecision},
+		Evaluation:  EvaluationSingleValue{value},
 	}
 }
 
